@@ -119,6 +119,11 @@ impl Check for RigCheck {
         } else {
             elig[src.below(elig.len())]
         };
+        // Debugging aid: restrict the batch to one adapter (not used by any registered command).
+        let ai = match std::env::var("VERIF_ADAPTER") {
+            Ok(n) => reg.iter().position(|a| a.name == n).unwrap_or(ai),
+            Err(_) => ai,
+        };
         let a = &reg[ai];
         let small_bytes = *src.pick(&[4096usize, 4096, 8192, 12288]);
         let env = Env { small_bytes };
